@@ -10,7 +10,7 @@ package internals
 //@ pool InternalIssueListPool *ErrsList
 //@ pool InternalIssueMapPool *ErrsMap
 // Everything zog puts back into the path-builder pool has room for, and starts with, the empty root segment.
-//@ pool PathBuilderPool *PathBuilder inv[C07] path_root: cap(*x) >= 1 && (*x)[0] == ""
+//@ pool PathBuilderPool *PathBuilder inv[C07] path_root: cap(*x) >= 1 && (*x)[0] == "" && IARR(arrbase(*x))
 //@ pool StringBuilderPool *strings.Builder
 
 //@ func NewExecCtx(errs, fmter)
@@ -73,8 +73,10 @@ package internals
 
 //@ specfun last(Log) Ptr as *ZogIssue
 //@ smt (assert (forall ((l Log) (x Ptr)) (! (= (zz_last (zz_push l x)) x) :pattern ((zz_push l x)))))
-// Ghost counter: number of test functions invoked so far in this execution.
-//@ ghost tf_ran Int
+// Ghost counters: TR(c) = number of test functions invoked so far with schema context c (a node's own tests);
+// nproc = number of schema-node process/validate invocations so far.
+//@ ghost TR(Ptr) Int
+//@ ghost nproc Int
 //@ spec LC(c) = L(c.ExecCtx.Errors)
 //@ spec listrep(l, g) = ((l == nil) <==> (g == empty())) && len(l) == loglen(g) && (len(l) > 0 ==> l[len(l)-1] == last(g))
 //@ spec zrep(s) = (istype(s, *ErrsList) ==> listrep(s.(*ErrsList).List, L(s))) && (istype(s, *ErrsMap) ==> ((s.(*ErrsMap).M == nil) <==> (L(s) == empty())))
@@ -97,7 +99,9 @@ package internals
 //@ smt (assert (= (zz_prender zz_pempty) ""))
 //@ ghost PSEQ(Ptr) PathSeq
 // Concrete shape of a path builder between balanced Push/Pop pairs: at least the root segment, which is "".
-//@ spec pathwf(p) = p != nil && len(*p) >= 1 && (*p)[0] == ""
+// IARR marks backing arrays that belong to zog's own bookkeeping (user callbacks never write them).
+//@ ghost IARR(Ptr) Bool
+//@ spec pathwf(p) = p != nil && len(*p) >= 1 && (*p)[0] == "" && IARR(arrbase(*p))
 
 // ---- function-type contracts (assumed for user callbacks, proved for zog's own closures)
 
@@ -120,8 +124,8 @@ package internals
 //@ functype TFunc(self, val, ctx)
 //@   requires[C12] ctx_is_schemactx: istype(ctx, *SchemaCtx) && wfctx(ctx.(*SchemaCtx))
 //@   requires[C12,C01] test_set: ctx.(*SchemaCtx).Test != nil
-//@   modifies ctx.(*SchemaCtx).Exit, recfp(ctx.(*SchemaCtx).ExecCtx), tf_ran
-//@   ghost_update tf_ran := tf_ran + 1
+//@   modifies ctx.(*SchemaCtx).Exit, recfp(ctx.(*SchemaCtx).ExecCtx), TR(ctx.(*SchemaCtx))
+//@   ghost_update TR(ctx.(*SchemaCtx)) := TR(ctx.(*SchemaCtx)) + 1
 //@   ensures[C01,C02,C05] outcome: tfunc_pass(ctx.(*SchemaCtx)) || tfunc_fail(ctx.(*SchemaCtx), val)
 //@   ensures zrep(ctx.(*SchemaCtx).ExecCtx.Errors)
 
@@ -265,7 +269,7 @@ package internals
 //@   fresh
 //@   modifies nothing
 //@   ghost_update PSEQ(result) := pempty()
-//@   ensures[C07,C10] root_only: len(*result) == 1 && (*result)[0] == ""
+//@   ensures[C07,C10] root_only: len(*result) == 1 && (*result)[0] == "" && IARR(arrbase(*result))
 //@   ensures[C10] PSEQ(result) == pempty()
 
 //@ func (*PathBuilder).String(p)
@@ -274,18 +278,25 @@ package internals
 //@   pure
 //@   ensures result == prender(PSEQ(p))
 
+// Push appends one segment; Pop removes the last one. Both keep every earlier segment (pathkeep), which is
+// what lets a node prove that the path it was given is intact after its children ran.
+//@ spec pathkept(p) = len(*p) == old(len(*p)) && forall(i, 0, len(*p), (*p)[i] == old((*p)[i]))
 //@ func (*PathBuilder).Push(p, path)
-//@   trusted
 //@   requires p != nil && path != nil
 //@   modifies all(p), elems(*p), PSEQ(p)
 //@   ghost_update PSEQ(p) := ppush(PSEQ(p), *path)
+//@   ghost_update IARR(arrbase(*p)) := true
 //@   ensures result == p
+//@   ensures IARR(arrbase(*p))
+//@   ensures[C10] appended: len(*p) == old(len(*p)) + 1 && (*p)[len(*p)-1] == *path
+//@   ensures[C10] prefix_kept: forall(i, 0, old(len(*p)), (*p)[i] == old((*p)[i]))
 
 //@ func (*PathBuilder).Pop(p)
-//@   trusted
 //@   requires p != nil
 //@   modifies all(p), PSEQ(p)
 //@   ghost_update PSEQ(p) := ppop(PSEQ(p))
+//@   ensures[C10] removed: old(len(*p)) > 0 ==> len(*p) == old(len(*p)) - 1
+//@   ensures[C10] prefix_kept: forall(i, 0, len(*p), (*p)[i] == old((*p)[i]))
 
 // ---- tests
 
@@ -302,12 +313,12 @@ package internals
 //@ func TestFuncFromBool$1(val, ctx)
 //@   captures[C17] fn_set: fn != nil
 //@   implements functype TFunc
-//@   modifies ctx.(*SchemaCtx).Exit, recfp(ctx.(*SchemaCtx).ExecCtx), tf_ran
+//@   modifies ctx.(*SchemaCtx).Exit, recfp(ctx.(*SchemaCtx).ExecCtx), TR(ctx.(*SchemaCtx))
 
 //@ func TestNotFuncFromBool$1(val, ctx)
 //@   captures[C17] fn_set: fn != nil
 //@   implements functype TFunc
-//@   modifies ctx.(*SchemaCtx).Exit, recfp(ctx.(*SchemaCtx).ExecCtx), tf_ran
+//@   modifies ctx.(*SchemaCtx).Exit, recfp(ctx.(*SchemaCtx).ExecCtx), TR(ctx.(*SchemaCtx))
 
 // ---- absence predicates (C04)
 
@@ -323,3 +334,31 @@ package internals
 //@   pure
 //@   ensures[C04] parse_zero_def: result == parsezero(val)
 //@   define bverdict(self, val) == parsezero(val)
+
+// ---- data providers (C14): a provider is a read-only view of a record.
+//@ specfun dpval(Iface, String) Iface
+//@ specfun dpkey(Iface, reflect.StructField, String) String
+//@ iface DataProvider.GetByField(self, field, fallback)
+//@   requires self != nil
+//@   pure
+//@   ensures[C14] result1 == dpkey(self, field, fallback)
+//@   ensures[C14] result0 == dpval(self, result1)
+
+//@ iface DataProvider.Get(self, key)
+//@   requires self != nil
+//@   pure
+//@   ensures[C14] result == dpval(self, key)
+
+// A provider factory (zhttp.Request, zjson.Decode) consumes its source: it may be invoked at most once.
+//@ ghost dpinvoked(Fn) Bool
+//@ functype DpFactory(self)
+//@   requires[C15] not_invoked_twice: !dpinvoked(self)
+//@   modifies dpinvoked(self)
+//@   ghost_update dpinvoked(self) := true
+//@   ensures result1 != nil ==> result1.Code != ""
+
+//@ func TryNewAnyDataProvider(val)
+//@   trusted
+//@   pure
+//@   ensures[C06] result1 == nil ==> result0 != nil
+//@   ensures result1 != nil ==> true
